@@ -27,3 +27,10 @@ def python_evaluate(s: str) -> int:
         raise NotAnIntegerException(s, str(ex))
     except NameError as ex:
         raise NotAnIntegerException(s, str(ex))
+    except NotAnIntegerException:
+        raise
+    except (Exception, SystemExit) as ex:
+        # The expression is given by the user, so any failure to evaluate it
+        # (ZeroDivisionError, OverflowError, IndexError, AttributeError, exit(), ...)
+        # means that it is not an integer expression.
+        raise NotAnIntegerException(s, '{}: {}'.format(type(ex).__name__, ex))
